@@ -148,6 +148,11 @@ pub struct Report {
     pub shape: (u32, u32, u32),
     /// total pages used by the tree and the free-list page (live data)
     pub live_pages: u64,
+    /// hash of everything a transaction can read from this file: header fields, and for every
+    /// reachable page its id, type, count, overflow and elements (keys, values, child ids), plus the
+    /// free-list ids.  Padding bytes, slack after the last element and unreachable pages are left
+    /// out (the library writes uninitialised padding, so raw bytes are not canonical).
+    pub struct_hash: u128,
 }
 
 impl Report {
@@ -164,9 +169,32 @@ struct Walk<'a> {
     errors: Vec<String>,
     shape: (u32, u32, u32),
     tree_pages: BTreeSet<u64>,
+    h1: u64,
+    h2: u64,
 }
 
 impl<'a> Walk<'a> {
+    fn feed_u64(&mut self, v: u64) {
+        self.h1 = (self.h1 ^ v).wrapping_mul(0x2545_F491_4F6C_DD1D);
+        self.h1 ^= self.h1 >> 29;
+        self.h2 = (self.h2.rotate_left(23) ^ v).wrapping_mul(0x9E37_79B9_7F4A_7C15);
+        self.h2 ^= self.h2 >> 31;
+    }
+
+    fn feed(&mut self, b: &[u8]) {
+        self.feed_u64(b.len() as u64 ^ 0xA5A5_0000_0000_0000);
+        let mut chunks = b.chunks_exact(8);
+        for c in &mut chunks {
+            self.feed_u64(u64::from_le_bytes(c.try_into().unwrap()));
+        }
+        let rem = chunks.remainder();
+        if !rem.is_empty() {
+            let mut w = [0u8; 8];
+            w[..rem.len()].copy_from_slice(rem);
+            self.feed_u64(u64::from_le_bytes(w));
+        }
+    }
+
     fn err(&mut self, s: String) {
         if self.errors.len() < 16 {
             self.errors.push(s);
@@ -233,6 +261,10 @@ impl<'a> Walk<'a> {
             self.tree_pages.insert(p);
         }
         stats.0 = stats.0.max(level + 1);
+        self.feed_u64(id);
+        self.feed_u64(ty as u64);
+        self.feed_u64(count);
+        self.feed_u64(overflow);
         let count = count as usize;
         match ty {
             T_LEAF => {
@@ -259,6 +291,9 @@ impl<'a> Walk<'a> {
                     };
                     let key = run[kstart..kstart + ks].to_vec();
                     let val = &run[kstart + ks..vend];
+                    self.feed_u64(nt as u64);
+                    self.feed(&key);
+                    self.feed(val);
                     if let Some(l) = last_key.as_ref() {
                         if *l >= key {
                             self.err(format!("keys not strictly ascending at page {} element {}: {} then {}", id, i, show(l), show(&key)));
@@ -313,6 +348,8 @@ impl<'a> Walk<'a> {
                         (Some(a), Some(b)) if b <= run.len() && a >= PAGE_HDR + 24 * count => {
                             keys.push(run[a..b].to_vec());
                             children.push(child);
+                            self.feed_u64(child);
+                            self.feed(&run[a..b]);
                         }
                         _ => {
                             self.err(format!("branch page {} element {}: key outside the page run", id, i));
@@ -371,7 +408,10 @@ pub fn check_with_meta(buf: &[u8], pagesize: u64, meta: &MetaRec) -> Report {
         rep.errors.push(format!("num_pages {} does not fit the file of {} bytes", meta.num_pages, buf.len()));
         return rep;
     }
-    let mut w = Walk { buf, ps: pagesize, num_pages: meta.num_pages, owner: BTreeMap::new(), errors: vec![], shape: (0, 0, 0), tree_pages: BTreeSet::new() };
+    let mut w = Walk { buf, ps: pagesize, num_pages: meta.num_pages, owner: BTreeMap::new(), errors: vec![], shape: (0, 0, 0), tree_pages: BTreeSet::new(), h1: 0x1234_5678_9ABC_DEF0, h2: 0x0FED_CBA9_8765_4321 };
+    for v in [meta.slot, meta.magic as u64, meta.version as u64, meta.pagesize, meta.root_page, meta.next_int, meta.num_pages, meta.freelist_page, meta.tx_id, meta.legacy as u64] {
+        w.feed_u64(v);
+    }
     // header pages: page id / type of both slots belong to the layout
     for slot in 0..2u64 {
         let start = (slot * pagesize) as usize;
@@ -389,9 +429,11 @@ pub fn check_with_meta(buf: &[u8], pagesize: u64, meta: &MetaRec) -> Report {
             if PAGE_HDR + 8 * count as usize > run.len() {
                 w.err(format!("free-list page {}: {} ids do not fit its run", meta.freelist_page, count));
             } else {
+                w.feed_u64(overflow);
                 for i in 0..count as usize {
                     let id = u64_at(run, PAGE_HDR + 8 * i).unwrap();
                     rep.free.push(id);
+                    w.feed_u64(id);
                 }
             }
         }
@@ -414,6 +456,7 @@ pub fn check_with_meta(buf: &[u8], pagesize: u64, meta: &MetaRec) -> Report {
         }
     }
     rep.contents = root;
+    rep.struct_hash = ((w.h1 as u128) << 64) | w.h2 as u128;
     rep.live_pages = w.tree_pages.len() as u64 + rep.freelist_run.1;
     rep.tree_pages = w.tree_pages;
     rep.shape = w.shape;
